@@ -76,7 +76,7 @@ pub fn run_pal(trace: &Trace) -> Outcome {
                     pal.resize(g(0).clamp(0, 400) as usize);
                     None
                 }
-                "roundtrip" | "six_bit" => None,
+                "roundtrip" | "six_bit" | "six_bit_files" => None,
                 _ => None,
             }
         }));
@@ -227,6 +227,46 @@ pub fn run_pal(trace: &Trace) -> Outcome {
                     }
                 }
             }
+            "six_bit_files" => {
+                // the same encoding as the three file formats carry it: sixteen six-bit colours, expanded, written by the
+                // XBin / IDF / ADF writers and read back, must come back as the same sixteen colours
+                let mut r6 = crate::rng::Rng::new(g(0) as u64);
+                let raw: Vec<u8> = (0..48).map(|_| r6.below(64) as u8).collect();
+                let want = list(&Palette::from_63(&raw));
+                for ext in ["adf", "xb", "idf"] {
+                    let res = catch_unwind(AssertUnwindSafe(|| -> Option<Vec<(u8, u8, u8)>> {
+                        let mut buf = icy_engine::Buffer::new((80, 2));
+                        buf.ice_mode = icy_engine::IceMode::Ice;
+                        buf.palette = Palette::from_63(&raw);
+                        buf.layers[0].set_char((0, 0), icy_engine::AttributedChar::new('A', icy_engine::TextAttribute::default()));
+                        let bytes = buf.to_bytes(ext, &icy_engine::SaveOptions::default()).ok()?;
+                        let back = icy_engine::Buffer::from_bytes(std::path::Path::new(&format!("p.{ext}")), true, &bytes).ok()?;
+                        Some((0..16).map(|i| back.palette.get_rgb(i)).collect())
+                    }));
+                    match res {
+                        Ok(Some(got)) => {
+                            stats.count("six_bit_file_cycles");
+                            if got != want {
+                                let k = got.iter().zip(&want).position(|(a, b)| a != b).unwrap_or(0);
+                                violation = Some(inv(
+                                    "six_bit_not_idempotent",
+                                    format!("sixteen six-bit colours written as .{ext} and read back: index {k} went from {:?} to {:?}", want[k], got[k]),
+                                    ei,
+                                ));
+                                break;
+                            }
+                        }
+                        Ok(None) => stats.count("six_bit_file_cycle_refused"),
+                        Err(_) => {
+                            guard::take_panics();
+                            stats.count("six_bit_file_cycle_panicked");
+                        }
+                    }
+                }
+                if violation.is_some() {
+                    break;
+                }
+            }
             "six_bit" => {
                 // all 64^3 six-bit colours: expanding and reducing again is the identity, so expanding twice changes nothing
                 let mut raw = Vec::with_capacity(64 * 64 * 64 * 3);
@@ -284,6 +324,7 @@ pub fn gen_pal(rng: &mut Rng) -> Trace {
         let (name, args): (&str, Vec<i64>) = match rng.below(12) {
             10 => ("roundtrip", vec![rng.range(0, 4), rng.range(0, 31)]),
             11 if rng.chance(1, 40) => ("six_bit", vec![]),
+            11 if rng.chance(1, 6) => ("six_bit_files", vec![rng.range(1, 1_000_000)]),
             11 => ("roundtrip", vec![rng.range(0, 4), *rng.pick(&[0i64, 15, 31])]),
             0..=4 => ("insert_rgb", vec![rgb.0, rgb.1, rgb.2]),
             5 => ("insert", vec![rgb.0, rgb.1, rgb.2]),
